@@ -10,6 +10,7 @@ from __future__ import annotations
 import xml.etree.ElementTree as ET
 from xml.dom import Node
 
+MAX_NODES = 300000
 _ET_COMMENT = ET.Comment
 _ET_PI = ET.ProcessingInstruction
 
@@ -32,6 +33,10 @@ def canon_etree(root):
     # a marker
     stack = [("el", root, 0)]
     while stack:
+        if len(out) > MAX_NODES:
+            # a corrupted (cyclic) structure must not hang the harness
+            out.append((0, "too-many-nodes-or-cyclic"))
+            break
         kind, el, depth = stack.pop()
         if kind == "tail":
             _text(out, depth, el)
@@ -75,9 +80,17 @@ def canon_dom(root):
         return ("none",)
     out = []
     stack = [(root, 0)]
+    # every node of a result belongs to the document that was returned (for a fragment: to the fragment's document)
+    owner = root if root.nodeType == Node.DOCUMENT_NODE else getattr(root, "ownerDocument", None)
+    foreign_owner = 0
     while stack:
+        if len(out) > MAX_NODES:
+            out.append((0, "too-many-nodes-or-cyclic"))
+            break
         node, depth = stack.pop()
         t = node.nodeType
+        if node is not root and getattr(node, "ownerDocument", owner) is not owner:
+            foreign_owner += 1
         if t == Node.DOCUMENT_NODE:
             out.append((depth, "document"))
         elif t == Node.DOCUMENT_FRAGMENT_NODE:
@@ -101,6 +114,8 @@ def canon_dom(root):
             out.append((depth, "other", t, node.nodeValue))
         for ch in reversed(node.childNodes):
             stack.append((ch, depth + 1))
+    if foreign_owner:
+        out.append((0, "nodes-owned-by-another-document", foreign_owner))
     return tuple(out)
 
 
